@@ -23,6 +23,7 @@ type Program struct {
 	Module  string
 	RepoDir string
 	Overlay map[string][]byte
+	Patches []SourcePatch
 }
 
 const HeliosModule = "github.com/0xReLogic/Helios"
@@ -52,6 +53,35 @@ func BuildOverlay(repoDir, harnessDir string) (map[string][]byte, map[string]str
 		return nil
 	})
 	return ov, real, err
+}
+
+// SourcePatch is a declared, textual scaling of a constant in the repository's
+// source (applied identically to the SSA load and to the native replay).
+type SourcePatch struct {
+	File string // relative to the repository root
+	Old  string
+	New  string
+	Why  string
+}
+
+// ApplyPatches adds patched copies of repository files to the overlay.
+func ApplyPatches(repoDir string, overlay map[string][]byte, patches []SourcePatch) error {
+	for _, p := range patches {
+		path := filepath.Join(repoDir, p.File)
+		data, ok := overlay[path]
+		if !ok {
+			d, err := os.ReadFile(path)
+			if err != nil {
+				return err
+			}
+			data = d
+		}
+		if !strings.Contains(string(data), p.Old) {
+			return fmt.Errorf("source patch anchor not found in %s: %q", p.File, p.Old)
+		}
+		overlay[path] = []byte(strings.Replace(string(data), p.Old, p.New, 1))
+	}
+	return nil
 }
 
 func Load(repoDir string, overlay map[string][]byte) (*Program, error) {
